@@ -1,199 +1,16 @@
 /-
-  Hs.Lemmas.HaysonReadRef4 — the encoder's documents carry no `_kind` member in a grid meta or a column meta
-  (`MetaUntagged (toJson v)` for well-formed `v`), so the reference reader reads the encoder's document of
-  EVERY well-formed value (any kind, any nesting) as the value.
+  Hs.Lemmas.HaysonReadRef4 — the reference reader reads the encoder's document of EVERY well-formed value
+  (any kind, any nesting) as the value: `reader_denotes` applied to `denotes_val`.
 -/
 import Hs.Lemmas.HaysonReadRef3
 import Hs.Lemmas.HaysonRead4
-set_option linter.unusedSimpArgs false
 namespace Hs.Spec.Hayson
 open Hs Hs.Hayson Hs.C02
-
-theorem tagsJson_keys_toList : ∀ t : Tags, (tagsJson t).toList.map (·.1) = t.keys
-  | .nil => by simp [tagsJson, Members.toList, Tags.keys]
-  | .cons k v t => by simp [tagsJson, Members.toList, Tags.keys, tagsJson_keys_toList t]
-
-theorem wfTags_keys_noKind : ∀ t : Tags, wfTags t = true → ∀ k ∈ t.keys, k ≠ s "_kind"
-  | .nil, _, k, hk => by simp [Tags.keys] at hk
-  | .cons k' v t, h, k, hk => by
-    simp [wfTags] at h
-    simp only [Tags.keys, List.mem_cons] at hk
-    rcases hk with e | hk
-    · subst e; exact h.1.1
-    · exact wfTags_keys_noKind t h.2 k hk
-
-theorem untagged_tagsJson (t : Tags) (hw : wfTags t = true) : Untagged (.obj (tagsJson t)) := by
-  intro mm e p hp
-  cases e
-  exact wfTags_keys_noKind t hw p.1 (by rw [← tagsJson_keys_toList]; exact List.mem_map_of_mem hp)
-
-/-- a dict object written from `_kind`-free tags is not a grid object -/
-theorem metaUntagged_obj_tags (t : Tags) (hw : wfTags t = true) (hm : MetaUntaggedM (tagsJson t)) :
-    MetaUntagged (.obj (tagsJson t)) := by
-  simp only [MetaUntagged]
-  refine ⟨?_, hm⟩
-  intro hg
-  exact absurd rfl (untagged_tagsJson t hw _ rfl _ hg)
-
-theorem metaUntagged_encNumber (n : Num) : MetaUntagged (encNumber n) := by
-  obtain ⟨v, unit⟩ := n
-  unfold encNumber
-  by_cases hN : isNaN v = true
-  · cases unit <;> simp [hN, MetaUntagged, MetaUntaggedM, Members.toList, s]
-  · by_cases hI : isInf v = true
-    · cases unit <;> by_cases hS : isNeg v = true <;>
-        simp [hN, hI, hS, MetaUntagged, MetaUntaggedM, Members.toList, s]
-    · cases unit with
-      | some u =>
-        simp [hN, hI, jF64, MetaUntagged, MetaUntaggedM, Members.toList, s]
-      | none =>
-        simp only [hN, hI]
-        simp
-        repeat' split
-        all_goals simp [MetaUntagged]
-
-theorem metaUntagged_jF64 (f : Flt) : MetaUntagged (jF64 f) := by
-  unfold jF64; split <;> simp [MetaUntagged]
-
-mutual
-theorem metaUntagged_val : (v : Val) → wfj v = true → MetaUntagged (toJson v)
-  | .null, _ => by simp [toJson, MetaUntagged]
-  | .remove, _ => by simp [toJson, kindObj, MetaUntagged, MetaUntaggedM, Members.toList, s]
-  | .marker, _ => by simp [toJson, kindObj, MetaUntagged, MetaUntaggedM, Members.toList, s]
-  | .na, _ => by simp [toJson, kindObj, MetaUntagged, MetaUntaggedM, Members.toList, s]
-  | .bool _, _ => by simp [toJson, MetaUntagged]
-  | .num n, _ => by simp only [toJson]; exact metaUntagged_encNumber n
-  | .str _, _ => by simp [toJson, MetaUntagged]
-  | .uri _, _ => by simp [toJson, kindObj, MetaUntagged, MetaUntaggedM, Members.toList, s]
-  | .ref _ dis, _ => by
-    cases dis <;> simp [toJson, kindObj, MetaUntagged, MetaUntaggedM, Members.toList, s]
-  | .sym _, _ => by simp [toJson, kindObj, MetaUntagged, MetaUntaggedM, Members.toList, s]
-  | .date _, _ => by simp [toJson, kindObj, MetaUntagged, MetaUntaggedM, Members.toList, s]
-  | .time _, _ => by simp [toJson, kindObj, MetaUntagged, MetaUntaggedM, Members.toList, s]
-  | .dateTime t, _ => by
-    by_cases h : (t.tzid == s "UTC") = true
-    · simp only [toJson, kindObj, h, if_true]
-      simp [MetaUntagged, MetaUntaggedM, Members.toList, s]
-    · simp only [toJson, kindObj, h]
-      simp [MetaUntagged, MetaUntaggedM, Members.toList, s]
-  | .coord a b, _ => by
-    simp only [toJson, kindObj, MetaUntagged, MetaUntaggedM]
-    refine ⟨?_, by simp [MetaUntagged], metaUntagged_jF64 a, metaUntagged_jF64 b, trivial⟩
-    intro hg
-    simp [Members.toList, s] at hg
-  | .xstr _ _, _ => by simp [toJson, kindObj, MetaUntagged, MetaUntaggedM, Members.toList, s]
-  | .list xs, h => by
-    simp only [toJson, MetaUntagged]
-    exact metaUntagged_vals xs (by simpa [wfj] using h)
-  | .dict d, h => by
-    simp [wfj] at h
-    simp only [toJson]
-    exact metaUntagged_obj_tags d h.1 (metaUntagged_tags d h.1)
-  | .grid (.some t) cols rows ver, h => by
-    simp [wfj] at h
-    simp only [toJson, kindObj, MetaUntagged, MetaUntaggedM]
-    refine ⟨fun _ => ⟨?_, ?_⟩, by simp [MetaUntagged],
-      metaUntagged_obj_tags t h.1.1.1.1 (metaUntagged_tags t h.1.1.1.1),
-      metaUntagged_cols cols h.1.2, metaUntagged_rows rows h.2, trivial⟩
-    · intro p hp hk
-      simp [Members.toList] at hp
-      rcases hp with e | e | e | e <;> subst e
-      · simp [s] at hk
-      · exact untagged_tagsJson t h.1.1.1.1
-      · simp [s] at hk
-      · simp [s] at hk
-    · intro p hp hk cs hcs c hc
-      simp [Members.toList] at hp
-      rcases hp with e | e | e | e <;> subst e
-      · simp [s] at hk
-      · simp [s] at hk
-      · cases hcs
-        exact colUntagged_cols cols h.1.2 c hc
-      · simp [s] at hk
-  | .grid .none cols rows ver, h => by
-    simp [wfj] at h
-    simp only [toJson, kindObj, MetaUntagged, MetaUntaggedM]
-    refine ⟨fun _ => ⟨?_, ?_⟩, by simp [MetaUntagged], by simp [MetaUntagged, MetaUntaggedM, Members.toList],
-      metaUntagged_cols cols h.1, metaUntagged_rows rows h.2, trivial⟩
-    · intro p hp hk
-      simp [Members.toList] at hp
-      rcases hp with e | e | e | e <;> subst e
-      · simp [s] at hk
-      · intro mm e p hp; cases e; simp [Members.toList] at hp
-      · simp [s] at hk
-      · simp [s] at hk
-    · intro p hp hk cs hcs c hc
-      simp [Members.toList] at hp
-      rcases hp with e | e | e | e <;> subst e
-      · simp [s] at hk
-      · simp [s] at hk
-      · cases hcs
-        exact colUntagged_cols cols h.1 c hc
-      · simp [s] at hk
-theorem metaUntagged_vals : (vs : Vals) → wfjs vs = true → MetaUntaggeds (listJson vs)
-  | .nil, _ => by simp [listJson, MetaUntaggeds]
-  | .cons v vs, h => by
-    simp [wfjs] at h
-    simp only [listJson, MetaUntaggeds]
-    exact ⟨metaUntagged_val v h.1, metaUntagged_vals vs h.2⟩
-theorem metaUntagged_tags : (t : Tags) → wfTags t = true → MetaUntaggedM (tagsJson t)
-  | .nil, _ => by simp [tagsJson, MetaUntaggedM]
-  | .cons k v t, h => by
-    simp [wfTags] at h
-    simp only [tagsJson, MetaUntaggedM]
-    exact ⟨metaUntagged_val v h.1.2, metaUntagged_tags t h.2⟩
-theorem metaUntagged_cols : (c : Cols) → wfCols c = true → MetaUntaggeds (colsJson c)
-  | .nil, _ => by simp [colsJson, MetaUntaggeds]
-  | .cons n (.some t) c, h => by
-    simp [wfCols] at h
-    simp only [colsJson, MetaUntaggeds, MetaUntagged, MetaUntaggedM]
-    refine ⟨⟨?_, by simp [MetaUntagged], metaUntagged_obj_tags t h.1.1 (metaUntagged_tags t h.1.1), trivial⟩,
-      metaUntagged_cols c h.2⟩
-    intro hg
-    simp [Members.toList, s] at hg
-  | .cons n .none c, h => by
-    simp [wfCols] at h
-    simp only [colsJson, MetaUntaggeds, MetaUntagged, MetaUntaggedM]
-    refine ⟨⟨?_, by simp [MetaUntagged], trivial⟩, metaUntagged_cols c h⟩
-    intro hg
-    simp [Members.toList, s] at hg
-theorem colUntagged_cols : (c : Cols) → wfCols c = true → ∀ cj ∈ (colsJson c).toList, ColUntagged cj
-  | .nil, _, cj, hc => by simp [colsJson, Jsons.toList] at hc
-  | .cons n (.some t) c, h, cj, hc => by
-    simp [wfCols] at h
-    simp only [colsJson, Jsons.toList, List.mem_cons] at hc
-    rcases hc with e | hc
-    · subst e
-      intro cm e p hp hk
-      cases e
-      simp [Members.toList] at hp
-      rcases hp with e | e <;> subst e
-      · simp [s] at hk
-      · exact untagged_tagsJson t h.1.1
-    · exact colUntagged_cols c h.2 cj hc
-  | .cons n .none c, h, cj, hc => by
-    simp [wfCols] at h
-    simp only [colsJson, Jsons.toList, List.mem_cons] at hc
-    rcases hc with e | hc
-    · subst e
-      intro cm e p hp hk
-      cases e
-      simp [Members.toList] at hp
-      subst hp
-      simp [s] at hk
-    · exact colUntagged_cols c h cj hc
-theorem metaUntagged_rows : (r : Rows) → wfRows r = true → MetaUntaggeds (rowsJson r)
-  | .nil, _ => by simp [rowsJson, MetaUntaggeds]
-  | .cons r rs, h => by
-    simp [wfRows] at h
-    simp only [rowsJson, MetaUntaggeds]
-    exact ⟨metaUntagged_obj_tags r h.1.1 (metaUntagged_tags r h.1.1), metaUntagged_rows rs h.2⟩
-end
 
 /-- **writer conformance, every value**: the reference reader reads the encoder's document of every
 well-formed value as the value (`jImage`; an empty meta as an absent one) -/
 theorem reader_reads_writer (v : Val) (h : wfj v = true) :
     readDoc (toJson v) = some (readerImage (jImage v)) :=
-  reader_denotes (denotes_val v h) (metaUntagged_val v h)
+  reader_denotes (denotes_val v h)
 
 end Hs.Spec.Hayson
